@@ -180,10 +180,31 @@ def gen_plan(rng, cfg, tier, profile):
     plan['file_p'] = {'w': rng.choice([0.02, 0.1, 0.3])}
     plan['hot'] = [[r'\bschema\b|SCHEMAS', rng.choice([0.3, 0.6])]]
     plan['p_tie'] = 0.9
+  if profile == 'c04' and rng.random() < 0.15:
+    # storage-schemas.conf is missing when a 60 s reload tick fires (a botched deployment);
+    # new metrics keep arriving afterwards
+    at = rng.randint(0, len(ops))
+    ops[at:at] = [['schema', 'storage-schemas.conf', None], ['sleep', rng.choice([60.0, 61.0, 59.5])]]
+    for _ in range(rng.randint(1, 3)):
+      ops.insert(rng.randint(at + 2, len(ops)),
+                 ['send', rng.randrange(4), gen_dps(rng, rng.randint(1, 3), counter, ['late%d.m' % rng.randrange(3)])])
   if profile == 'c04':
     pos = rng.randint(1, len(ops))
     ops.insert(pos, ['stop'])
+    tail = [op for op in ops[pos + 1:] if op[0] in ('send', 'udp')]
     ops = ops[:pos + 1]
+    if tail and rng.random() < 0.3:
+      # the shutdown takes a moment to get past its first phase: established connections
+      # deliver a little more in the meantime
+      k = rng.randint(1, min(3, len(tail)))
+      plan['stop_window'] = k
+      ops += tail[:k]
+  elif profile == 'c10' and rng.random() < 0.25:
+    k = rng.randint(1, 4)
+    plan['stop_window'] = k
+    ops.append(['stop'])
+    for _ in range(k):
+      ops.append(['send', rng.randrange(4), gen_dps(rng, rng.choice([1, 2, 3, 5]), counter, names)])
   elif profile in ('c03', 'c20') and rng.random() < 0.3:
     plan['stop_at_end'] = True
   plan['ops'] = ops
@@ -229,7 +250,7 @@ def gen_plan(rng, cfg, tier, profile):
     plan['db_faults'] = faults
   elif profile in ('c04', 'c09', 'c19', 'c20') and rng.random() < 0.3:
     plan['db_faults'] = {str(rng.randrange(0, 30)): ['slow', rng.choice([0.3, 1.5, 5.0])]}
-  if profile == 'c02' and plan['wmode'] == 'writer' and rng.random() < 0.5:
+  if profile in ('c02', 'c10') and plan['wmode'] == 'writer' and rng.random() < 0.5:
     plan['db_faults'] = {str(rng.randrange(0, 16)): ['raise', 'ioerror'] for _ in range(rng.randint(1, 3))}
   if profile == 'c20' and rng.random() < 0.5:
     # failing creates must still be charged against MAX_CREATES_PER_MINUTE
